@@ -215,6 +215,28 @@ def memoryblock_typestate(facts, res):
             res.violation(R, f, mv[0]["qname"], "move:" + need.split("=")[0], mv[0]["l"][1], "move assignment " + why)
     if len(dels) != 1:
         res.violation(R, f, mv[0]["qname"], "move:free-count", mv[0]["l"][1], "move assignment must release the destination's own buffer exactly once when it owns one (found %d)" % len(dels))
+    # every data member travels with the buffer: a member the move leaves behind (a capacity, a count, a table pointer) describes the
+    # destination's OLD buffer afterwards
+    taken = set()
+    od = mv[0]["params"][0]["did"]
+    for x in walk(tbf.body(mv[0])):
+        if x.get("k") in ("BinaryOperator", "CXXOperatorCallExpr") and x.get("op") == "=" and kids(x):
+            l0 = strip(kids(x)[0] if x.get("k") == "BinaryOperator" else kids(x)[1])
+            r0 = kids(x)[1] if x.get("k") == "BinaryOperator" else kids(x)[-1]
+            while l0.get("k") == "ArraySubscriptExpr" and kids(l0):
+                l0 = strip(kids(l0)[0])
+            if l0.get("k") in ("MemberExpr", "CXXDependentScopeMemberExpr") and l0.get("name") in fieldnames and (not kids(l0) or strip(kids(l0)[0]).get("k") == "CXXThisExpr"):
+                if any(y.get("k") in ("MemberExpr", "CXXDependentScopeMemberExpr") and y.get("name") == l0["name"] and kids(y) and strip(kids(y)[0]).get("did") == od for y in walk(r0)):
+                    taken.add(l0["name"])
+        if x.get("k") in ("CallExpr",) and tbf.callee_name(x) == "swap" and len(tbf.call_args(x)) == 2:
+            nm = [y.get("name") for a_ in tbf.call_args(x) for y in walk(a_) if y.get("k") in ("MemberExpr", "CXXDependentScopeMemberExpr") and y.get("name") in fieldnames]
+            if len(nm) == 2 and nm[0] == nm[1]:
+                taken.add(nm[0])
+    left = sorted(fieldnames - taken)
+    res.instance(R, "move-assignment members", facts.loc(mv[0]), "takes %s from its argument; left behind: %s" % (sorted(taken), left or "none"))
+    for nm in left:
+        res.violation(R, f, mv[0]["qname"], "move:left-behind:" + nm, mv[0]["l"][1],
+                      "move assignment does not take the member '%s' from its argument: after `a = std::move(b)` it still describes a's old buffer (a capacity or count of the old buffer makes the next reset / access run past the end of the new one)" % nm)
     # move constructor delegates to default ctor + move assignment
     mc = [m for m in facts.methods_of("TbfMemoryBlock") if m["kind"] == "CXXConstructor" and len(m["params"]) == 1 and m["params"][0]["t"].endswith("&&") and "TbfMemoryBlock" in m["params"][0]["t"]]
     if len(mc) == 1:
